@@ -3,6 +3,8 @@ package c12
 import (
 	"encoding/json"
 	"fmt"
+	gohttp "net/http"
+	"net/http/httptest"
 	"os"
 	"path/filepath"
 	"reflect"
@@ -14,6 +16,7 @@ import (
 	"github.com/php-any/origami/data"
 	"github.com/php-any/origami/node"
 	"github.com/php-any/origami/runtime"
+	nethttp "github.com/php-any/origami/std/net/http"
 	"github.com/php-any/origami/verifharness/hx"
 	"github.com/php-any/origami/verifsim"
 )
@@ -156,6 +159,10 @@ func gen(r *verifsim.Rng, tier string) (any, hx.Sched) {
 				// while running on this VM
 				op.K = "evaldef"
 			} else if r.Intn(6) == 0 {
+				// a whole request through the hot-reload handler: it creates the request's VM itself, the request's
+				// script declares a class, an interface and a function, and the handler ends the request
+				op.K = "hotreq"
+			} else if r.Intn(6) == 0 {
 				// a script running on this VM gives a class of its own a second name with class_alias()
 				op.K = "alias"
 			} else if r.Intn(3) == 0 {
@@ -246,6 +253,7 @@ type sys struct {
 	evalNames int
 	evalLast  string
 	evalOn    map[string]int
+	hotNames  []Def          // what finished hot-reload requests declared on their own VMs: resolvable nowhere afterwards
 	aliasOn   map[string]int // alias name -> VM whose code called class_alias() (-1: that VM was discarded)
 }
 
@@ -383,6 +391,52 @@ func (s *sys) runOn(i int, src, path string) (out string, failed string) {
 		}
 	}
 	return out, ""
+}
+
+// hotHandler is the user handler of a hot-reload route: it runs a script on the VM the handler created for the request.
+type hotHandler struct {
+	sy        *sys
+	src, path string
+	ran       bool
+	own       string
+	failed    string
+}
+
+func (h *hotHandler) GetName() string            { return "handle" }
+func (h *hotHandler) GetParams() []data.GetValue { return nil }
+func (h *hotHandler) GetVariables() []data.Variable {
+	return []data.Variable{data.NewVariable("r", 0, nil), data.NewVariable("w", 1, nil)}
+}
+
+func (h *hotHandler) Call(ctx data.Context) (data.GetValue, data.Control) {
+	tv, ok := ctx.GetVM().(*runtime.TempVM)
+	if !ok {
+		h.failed = fmt.Sprintf("the request does not run on a temporary VM: %T", ctx.GetVM())
+		return nil, nil
+	}
+	p := tv.PrepareParse(h.sy.env.P)
+	pr, c := p.ParseString(h.src, h.path)
+	if c != nil {
+		h.failed = "parse: " + first(hx.CtlStr(c))
+		return nil, nil
+	}
+	if _, ctl := pr.GetValue(tv.CreateContext(p.GetVariables())); ctl != nil {
+		h.failed = "throw: " + first(hx.CtlStr(ctl))
+		return nil, nil
+	}
+	h.ran = true
+	yn := func(b bool) string {
+		if b {
+			return "y"
+		}
+		return "n"
+	}
+	k := strings.TrimSuffix(strings.TrimPrefix(filepath.Base(h.path), "hot"), ".php")
+	cl, ok1 := tv.GetClass("Hot" + k + "C")
+	in, ok2 := tv.GetInterface("Hot" + k + "I")
+	fn, ok3 := tv.GetFunc("hot" + k + "_fn")
+	h.own = yn(ok1 && cl != nil) + yn(ok2 && in != nil) + yn(ok3 && fn != nil)
+	return nil, nil
 }
 
 func first(s string) string {
@@ -628,6 +682,29 @@ func step(o *hx.Outcome, w *W, sy *sys, m *model, k int, op Op, log *[]string, o
 				sy.evalOn[sy.evalLast] = -1 // eval refused (it is on a temporary VM today): defined nowhere
 			}
 		}
+	case "hotreq":
+		defs := []Def{{"class", fmt.Sprintf("Hot%dC", k)}, {"iface", fmt.Sprintf("Hot%dI", k)}, {"func", fmt.Sprintf("hot%d_fn", k)}}
+		src := fmt.Sprintf("<?php\nclass Hot%dC { }\ninterface Hot%dI { }\nfunction hot%d_fn() { return 1; }\n", k, k, k)
+		h := &hotHandler{sy: sy, src: src, path: fmt.Sprintf("/verif/c12/hot%d.php", k)}
+		hot := nethttp.HotHandler{Value: h, Ctx: sy.env.VM.CreateContext(nil)}
+		func() {
+			defer func() {
+				if p := recover(); p != nil {
+					h.failed = "panic: " + first(fmt.Sprint(p))
+				}
+			}()
+			hot.ServeHTTP(httptest.NewRecorder(), httptest.NewRequest(gohttp.MethodGet, "/", nil))
+		}()
+		*log = append(*log, fmt.Sprintf("%d hotreq -> ran=%v own=%s %s", k, h.ran, h.own, h.failed))
+		o.Probe("requests_through_the_hot_reload_handler", 1)
+		if h.failed != "" || !h.ran {
+			o.Violate("C12/observation-failed/hotreq", fmt.Sprintf("step %d: a request through HotHandler did not run its script: %s (history: %s)", k, h.failed, histStr(w, k)))
+			break
+		}
+		if h.own != "yyy" {
+			o.Violate("C12/lost/hot-request", fmt.Sprintf("step %d: the request's own VM resolves its declarations (class, interface, function) as %s (history: %s)", k, h.own, histStr(w, k)))
+		}
+		sy.hotNames = append(sy.hotNames, defs...)
 	case "alias":
 		alias := fmt.Sprintf("AlName%d", k)
 		src := fmt.Sprintf("<?php\nclass AlSrc%d { }\n$r = class_alias(\"AlSrc%d\", \"%s\");\n", k, k, alias)
@@ -834,6 +911,28 @@ func step(o *hx.Outcome, w *W, sy *sys, m *model, k int, op Op, log *[]string, o
 			}
 			if !has && want && on >= 0 {
 				o.Violate("C12/lost/eval/"+vmk, fmt.Sprintf("after step %d, vm%d does not have %s, which it declared through eval() (history: %s)", k, v, name, histStr(w, k)))
+			}
+		}
+		// what a finished hot-reload request declared on its own VM resolves on no VM that exists or is created later
+		for _, d := range sy.hotNames {
+			has := false
+			switch d.Kind {
+			case "class":
+				c, ok := sy.vm(v).GetClass(d.Name)
+				has = ok && c != nil
+			case "iface":
+				c, ok := sy.vm(v).GetInterface(d.Name)
+				has = ok && c != nil
+			default:
+				f, ok := sy.vm(v).GetFunc(d.Name)
+				has = ok && f != nil
+			}
+			if has {
+				vmk := "temp"
+				if v == 0 {
+					vmk = "base"
+				}
+				o.Violate("C12/leak/hot-request/"+d.Kind+"/into-"+vmk, fmt.Sprintf("after step %d, vm%d resolves %s %s, which a finished request declared on the VM the hot-reload handler gave it (history: %s)", k, v, d.Kind, d.Name, histStr(w, k)))
 			}
 		}
 		// names given with class_alias(): whatever the call does, the name belongs to the VM whose code gave it
